@@ -113,6 +113,17 @@ func (db *DB) Merge() error {
 				if err != nil {
 					return err
 				}
+				// 重写文件的 id 从 0 开始分配, 不得触及未参与 merge 的文件 id
+				// 否则重启加载时重写文件将与未参与 merge 的文件冲突, 放弃本次 merge
+				if pos.Fid >= nonMergeFileId {
+					_ = hintFile.Close()
+					for _, file := range mergeDB.olderFiles {
+						_ = file.Close()
+					}
+					_ = mergeDB.activeFile.Close()
+					_ = os.RemoveAll(mergePath)
+					return ErrMergeFileIDConflict
+				}
 				// merge的过程中顺便将构建索引所需信息写入 Hint 文件中, 用于后续重启时加速构建索引
 				if err := hintFile.WriteHintRecord(logRecord.Key, db.hintPos, pos); err != nil {
 					return err
